@@ -180,6 +180,10 @@ func genRGBA(t *tape.Tape, cls int) color.RGBA {
 	}
 }
 
+// GenRGBAClass draws a colour of one class: 0 opaque 1-byte lattice, 1 translucent
+// 1-byte, 2 2-byte lattice, 3 opaque any RGB, 4 premultiplied any alpha, ...
+func GenRGBAClass(t *tape.Tape, cls int) color.RGBA { return genRGBA(t, cls) }
+
 // GenColor draws an ivg.Color of every kind the format knows.
 // wideIndex draws a palette / register index: the constructors take a byte
 // and index modulo 64, so one index in four carries high bits.
